@@ -100,13 +100,18 @@ CHECKS = {
   "technique": "property-based testing: Hypothesis generators against closed-form references and algebraic identities",
  },
  "C20": {
-  "text": "A reference automaton written from the docstrings drives (i) an exhaustive prefix-shared enumeration of all loss histories over the "
-          "abstract alphabet for steps 1..4 x patience 1..3 (quick; ~1.1e6 histories) / steps 1..6 x patience 1..4 up to length 12 "
-          "(thorough), (ii) Hypothesis sequences of real and batched losses with resets, (iii) the driver loops (scheduler.optimize on "
-          "stub and real optimizers, MPC, ICP called repeatedly) with counting wrappers. Complete for the enumerated box; exploration beyond.",
+  "text": "A reference automaton written from the docstrings drives (i) a prefix-shared enumeration of loss histories over the abstract "
+          "alphabet - complete for length <= steps+2, steps 1..4 x patience 1..3 (quick) / length <= min(12, steps+3), steps 1..6 x "
+          "patience 1..4 (thorough), plus every history of length <= 12 over every 2-symbol sub-alphabet and near-threshold (+-1 %) and "
+          "relative-vs-absolute ladders; (ii) Hypothesis histories of length 1..12 over the full alphabet for steps 1..6 x patience 1..4; "
+          "(iii) Hypothesis sequences of real and batched losses with resets; (iv) the driver loops (scheduler.optimize on stub and real "
+          "optimizers, MPC, ICP called repeatedly) with counting wrappers, and a fixed driver canary (24 inputs where nothing may be "
+          "skipped). Complete for the enumerated boxes named in the module's RULE; exploration beyond.",
   "design_ref": "DESIGN.md section 3, C20",
-  "note": "Losses are generated only where the absolute and relative readings of 'decrease by the configured amount' agree; counters are asserted only up to the stopping step.",
-  "technique": "property-based testing / model-based testing: exhaustive history enumeration and Hypothesis sequences against a reference automaton",
+  "note": "ReduceToBason is asserted with the relative reading its docstring states; StopOnPlateau is asserted only where the absolute and "
+          "relative readings agree (its docstring text and example disagree). Only continual() and the stop decisions are asserted while "
+          "running; counters are labels. Nothing is generated exactly at a threshold (strictness is undocumented).",
+  "technique": "property-based testing / model-based testing: history enumeration and Hypothesis histories/sequences against a reference automaton",
  },
  "C07": {
   "text": "Generated models (mixed parameter kinds, batch items, frozen parameters, residual programs from C04's grammar, second outputs, "
